@@ -486,6 +486,27 @@ class Doc:
                     for which in ("first", "second"):
                         yield {"op": "dup-mut", "cls": "dup-mut:" + self.fault_class(f).split(":")[0], "n": e.idx, "inner": f, "which": which}
 
+    def sibling_pairs(self):
+        """Compensating pairs of faults under one parent: one child element deleted and a sibling with ANOTHER tag duplicated, so that the
+        number of children stays what it was while the numbers per kind do not (a rule with an input entry too many and an output entry
+        too few). Per parent and ordered pair of tags: the first and the last child of each tag."""
+        for p in self.elements:
+            kids = p.elements()
+            if len(kids) < 2:
+                continue
+            by_tag = {}
+            for k in kids:
+                by_tag.setdefault(k.tag, []).append(k)
+            if len(by_tag) < 2:
+                continue
+            for ta, la in by_tag.items():
+                for tb, lb in by_tag.items():
+                    if ta == tb:
+                        continue
+                    for a in {la[0].idx, la[-1].idx}:
+                        for b in {lb[0].idx, lb[-1].idx}:
+                            yield [{"op": "el-delete", "n": a}, {"op": "el-dup", "n": b}]
+
     def splices(self, f):
         t = self.text
         op = f["op"]
